@@ -12,6 +12,7 @@ PropOf(e) == IF e.ev = "eq" THEN "C17"
              ELSE IF e.ret = "panic" THEN (IF e.op.op \in {"Copy", "NewLike", "TypeCopy", "MutSlice", "TypeEdit"} THEN "C18" ELSE "C17")
              ELSE IF ~FrameOK(e.pre, e.op, e.post) THEN "C18"
              ELSE IF e.op.op \in {"Copy", "NewLike", "TypeCopy", "TypeEdit"} THEN "C18"
+             ELSE IF e.op.op = "DerivedNew" THEN "C17"
              ELSE "C17"
 
 Dev(e) == IF Dev_CopySharesSlices(e) THEN "Dev_CopySharesSlices"
